@@ -1,10 +1,14 @@
 /-
 C06 — property theorems (statements, short proofs from the lemmas of Proofs*.lean, non-vacuity examples).
 
-Model: GoZero/C06/Model.lean (cacheNode + cleaner + CachedConn over a Redis store with ms TTLs and an abstract
-database; per-command cache faults `m : List Bool`, per-operation database fault `dbf`, jitter draw `j/1000`).
+Model: GoZero/C06/Model.lean (cacheCluster dispatch + cacheNode + cleaner + CachedConn over SEVERAL Redis stores
+— one per cache node, a slot is (node, key) — with ms TTLs and an abstract database; per-command cache faults
+`m : List Bool` (reads / sets: in issue order; DelCtx: one mask per node), per-operation database fault `dbf`,
+jitter draw `j/1000`).
 All theorems quantify over *every* history `ops : List Op` (reads, Exec writes, deletes, explicit sets, raw
-writes, clock advances, cleaner ticks, with every placement of faults), every configuration `c`.
+writes, clock advances, cleaner ticks with any set of nodes down, with every placement of faults) and every
+configuration `c`: expiries, node-type or cluster-type Redis, and EVERY dispatch function `c.place : CKey → Nat`
+(any number of nodes, any assignment of keys to nodes; one node = a constant function).
 -/
 import GoZero.C06.Proofs3
 import GoZero.C06.Flight
@@ -17,6 +21,18 @@ database and whose key's database view has not been changed since holds exactly 
 the row, the primary key, or the placeholder iff the row is absent. -/
 theorem coherence_invariant (c : Cfg) (ops : List Op) : Coh (run c St.init ops) :=
   run_coh c init_coh ops
+
+/-- `Coh` spelled out for the multi-node store: on EVERY node `n`, a `loaded` entry of key `k` holds the
+database's view of `k`. -/
+theorem coherence_invariant_per_node (c : Cfg) (ops : List Op) (n : Nat) (k : CKey) (e : Entry)
+    (he : (run c St.init ops).cache (n, k) = some e) (hl : e.origin = .loaded) :
+    e.val = dbView (run c St.init ops) k :=
+  coherence_invariant c ops (n, k) e he hl
+
+/-- **dispatch invariant** (all histories): an entry of key `k` is only ever found on node `c.place k` — the
+cluster never leaves a copy of a key on a node it will not invalidate. -/
+theorem entries_on_their_node (c : Cfg) (ops : List Op) : Placed c (run c St.init ops) :=
+  run_placed c (init_placed c) ops
 
 /-
 FULL STATEMENT of the property's first clause (NOT provable — refuted by `stale_read_while_delete_pending`):
@@ -39,12 +55,12 @@ is still pending in the cleaner or the cleaner has given up after five failed re
 theorem coherent_reads_partial (c : Cfg) (ops : List Op) (hp : Proviso c St.init ops)
     (pk j : Nat) (m : List Bool) (hf : failAt m 0 = false) :
     (takeP c (run c St.init ops) pk j m false).2.res = Spec.expected (run c St.init ops) (.p pk)
-    ∨ ∃ e, (run c St.init ops).cache (.p pk) = some e ∧ e.origin = .stale
-           ∧ (Pending (run c St.init ops) (.p pk) ∨ 0 < (run c St.init ops).gaveUp) := by
+    ∨ ∃ e, (run c St.init ops).cache (c.slot (.p pk)) = some e ∧ e.origin = .stale
+           ∧ (Pending (run c St.init ops) (c.slot (.p pk)) ∨ 0 < (run c St.init ops).gaveUp) := by
   have hi := run_inv c init_inv ops
-  have hn := run_noBehind c init_noBehind ops hp
+  have hn := run_noBehind c init_noBehind (init_placed c) ops hp
   generalize run c St.init ops = s at *
-  by_cases hs : ∃ e, s.cache (.p pk) = some e ∧ e.origin = .stale
+  by_cases hs : ∃ e, s.cache (c.slot (.p pk)) = some e ∧ e.origin = .stale
   · obtain ⟨e, he, ho⟩ := hs
     exact Or.inr ⟨e, he, ho, hi.prov _ e he ho⟩
   · left
@@ -61,7 +77,7 @@ theorem coherent_index_reads_partial (c : Cfg) (ops : List Op) (hp : Proviso c S
     ∨ ∃ k e, (run c St.init ops).cache k = some e ∧ e.origin = .stale
              ∧ (Pending (run c St.init ops) k ∨ 0 < (run c St.init ops).gaveUp) := by
   have hi := run_inv c init_inv ops
-  have hn := run_noBehind c init_noBehind ops hp
+  have hn := run_noBehind c init_noBehind (init_placed c) ops hp
   generalize run c St.init ops = s at *
   by_cases hs : ∃ k e, s.cache k = some e ∧ e.origin = .stale
   · obtain ⟨k, e, he, ho⟩ := hs
@@ -78,9 +94,9 @@ theorem coherent_index_reads_partial (c : Cfg) (ops : List Op) (hp : Proviso c S
 /-- Without the carve-out the clause is false (witness, replayed on the real code by the harness' first
 section): row 1 is cached, `Exec` updates it while the DEL fails, the next read still returns the old row. -/
 theorem stale_read_while_delete_pending :
-    let c : Cfg := ⟨20000, 3000⟩
+    let c : Cfg := { exp := 20000, nf := 3000 }
     let ops : List Op := [.exec [.p 1, .x 1] (.put 1 10 1) [] false, .take 1 500 [] false,
-                          .exec [.p 1, .x 1] (.put 1 11 1) [true] false]
+                          .exec [.p 1, .x 1] (.put 1 11 1) [[true]] false]
     Proviso c St.init ops
     ∧ (takeP c (run c St.init ops) 1 500 [] false).2.res = .val (.row 1 10 1)
     ∧ Spec.expected (run c St.init ops) (.p 1) = .val (.row 1 11 1) := by
@@ -101,21 +117,21 @@ theorem nextDelay_chain : nextDelay 1 = some 5 ∧ nextDelay 5 = some 60 ∧ nex
 /-- a cached row or not-found marker is served without touching the database (and without touching the
 cache), in any state. -/
 theorem served_from_cache (c : Cfg) (s : St) (pk j : Nat) (e : Entry) (m : List Bool) (dbf : Bool)
-    (he : s.cache (.p pk) = some e) (hl : e.val = .ph ∨ parses (.p pk) e.val = true) (hf : failAt m 0 = false) :
+    (he : s.cache (c.slot (.p pk)) = some e) (hl : e.val = .ph ∨ parses (.p pk) e.val = true) (hf : failAt m 0 = false) :
     (takeP c s pk j m dbf).2.q = 0 ∧ (takeP c s pk j m dbf).1 = s
     ∧ (takeP c s pk j m dbf).2.res = (if e.val = .ph then .notfound else .val e.val) := by
   rw [takeP_served c j dbf he hl hf]; exact ⟨rfl, rfl, rfl⟩
 
 /-- index path: cached not-found marker. -/
 theorem served_from_cache_index_placeholder (c : Cfg) (s : St) (a j : Nat) (e : Entry) (m : List Bool) (dbf : Bool)
-    (he : s.cache (.x a) = some e) (hv : e.val = .ph) (hf : failAt m 0 = false) :
+    (he : s.cache (c.slot (.x a)) = some e) (hv : e.val = .ph) (hf : failAt m 0 = false) :
     (qindex c s a j m dbf).2.q = 0 ∧ (qindex c s a j m dbf).1 = s ∧ (qindex c s a j m dbf).2.res = .notfound := by
   rw [qindex_served_placeholder c j dbf he hv hf]; exact ⟨rfl, rfl, rfl⟩
 
 /-- index path: cached index entry and cached primary entry. -/
 theorem served_from_cache_index (c : Cfg) (s : St) (a n j : Nat) (e e' : Entry) (m : List Bool) (dbf : Bool)
-    (he : s.cache (.x a) = some e) (hv : e.val = .pk n)
-    (he' : s.cache (.p n) = some e') (hl : e'.val = .ph ∨ parses (.p n) e'.val = true)
+    (he : s.cache (c.slot (.x a)) = some e) (hv : e.val = .pk n)
+    (he' : s.cache (c.slot (.p n)) = some e') (hl : e'.val = .ph ∨ parses (.p n) e'.val = true)
     (hf : failAt m 0 = false) (hf' : failAt m 1 = false) :
     (qindex c s a j m dbf).2.q = 0 ∧ (qindex c s a j m dbf).1 = s
     ∧ (qindex c s a j m dbf).2.res = (if e'.val = .ph then .notfound else .val e'.val) := by
@@ -134,15 +150,17 @@ theorem db_errors_not_cached (c : Cfg) (s : St) (pk a j : Nat) (m : List Bool) (
 
 /-- a failing database call on a miss is what is returned (nothing else masks it). -/
 theorem db_error_returned (c : Cfg) (s : St) (pk j : Nat) (m : List Bool)
-    (hmiss : s.cache (.p pk) = none) (hf : failAt m 0 = false) :
+    (hmiss : s.cache (c.slot (.p pk)) = none) (hf : failAt m 0 = false) :
     (takeP c s pk j m true).2.res = .dberr ∧ (takeP c s pk j m true).1 = s := by
+  unfold Cfg.slot at hmiss
   unfold takeP getCache; simp [hf, hmiss]
 
-/-- a failing cache store (other than a miss) is reported without querying the database, state untouched. -/
+/-- a failing cache store (other than a miss) is reported without querying the database, state untouched
+(the one command issued is the GET on the key's node: a node that is down fails the reads of ITS keys only). -/
 theorem cache_failure_fails_fast (c : Cfg) (s : St) (pk a j : Nat) (m : List Bool) (dbf : Bool)
     (h : failAt m 0 = true) :
-    takeP c s pk j m dbf = (s, { res := .cacheerr, q := 0, cmds := [(.get, true)] })
-    ∧ qindex c s a j m dbf = (s, { res := .cacheerr, q := 0, cmds := [(.get, true)] }) :=
+    takeP c s pk j m dbf = (s, { res := .cacheerr, q := 0, cmds := [⟨.get, c.place (.p pk), [.p pk], true⟩] })
+    ∧ qindex c s a j m dbf = (s, { res := .cacheerr, q := 0, cmds := [⟨.get, c.place (.x a), [.x a], true⟩] }) :=
   ⟨takeP_failfast c s pk j m dbf h, qindex_failfast c s a j m dbf h⟩
 
 /-! ## 4. TTLs -/
@@ -161,9 +179,9 @@ theorem configured_expiries_positive (exp nf : Nat) :
 
 /-- what a Take writes: only under its own key, a `loaded` entry, the placeholder with the jittered not-found
 expiry or the row with the jittered expiry. -/
-theorem take_writes_ttl (c : Cfg) (s : St) (pk j : Nat) (m : List Bool) (dbf : Bool) (k : CKey) :
+theorem take_writes_ttl (c : Cfg) (s : St) (pk j : Nat) (m : List Bool) (dbf : Bool) (k : Slot) :
     (takeP c s pk j m dbf).1.cache k = s.cache k ∨ (takeP c s pk j m dbf).1.cache k = none ∨
-    (k = .p pk ∧ ((takeP c s pk j m dbf).1.cache k = some ⟨.ph, ttlSec c.nf j * 1000, .loaded⟩ ∨
+    (k = c.slot (.p pk) ∧ ((takeP c s pk j m dbf).1.cache k = some ⟨.ph, ttlSec c.nf j * 1000, .loaded⟩ ∨
                   ∃ r, dbRow s pk = some r ∧ (takeP c s pk j m dbf).1.cache k = some ⟨r, ttlSec c.exp j * 1000, .loaded⟩)) :=
   takeP_writes c s pk j m dbf k
 
@@ -172,7 +190,7 @@ for a positive expire and falls back to the jittered configured expiry for a non
 in every case at least one second when the configured expiry is positive. -/
 theorem set_ttl (c : Cfg) (s : St) (k : CKey) (v : CVal) (e : Option Int) (j : Nat) (hj : j ≤ 1000)
     (hc : 0 < c.exp) :
-    ∃ t, 1 ≤ t ∧ (setOp c s k v e j []).1.cache k = some ⟨v, t * 1000, .explicit⟩
+    ∃ t, 1 ≤ t ∧ (setOp c s k v e j []).1.cache (c.slot k) = some ⟨v, t * 1000, .explicit⟩
       ∧ (match e with
          | some ms => if ms ≤ 0 then t = ttlSec c.exp j else t = ceilSec ms.toNat
          | none => t = ttlSec c.exp j) := by
@@ -189,22 +207,22 @@ theorem set_ttl (c : Cfg) (s : St) (k : CKey) (v : CVal) (e : Option Int) (j : N
 /-- index path on a double miss without faults: the primary entry is written with the index entry's TTL plus
 5 s, so it outlives the index entry. -/
 theorem index_primary_outlives_index (c : Cfg) (s : St) (a j : Nat) (r : Nat × CVal)
-    (hmiss : s.cache (.x a) = none) (hr : dbIndex s a = some r) :
-    (qindex c s a j [] false).1.cache (.x a) = some ⟨.pk r.1, ttlSec c.exp j * 1000, .loaded⟩
-    ∧ (qindex c s a j [] false).1.cache (.p r.1) = some ⟨r.2, (ttlSec c.exp j + 5) * 1000, .loaded⟩
+    (hmiss : s.cache (c.slot (.x a)) = none) (hr : dbIndex s a = some r) :
+    (qindex c s a j [] false).1.cache (c.slot (.x a)) = some ⟨.pk r.1, ttlSec c.exp j * 1000, .loaded⟩
+    ∧ (qindex c s a j [] false).1.cache (c.slot (.p r.1)) = some ⟨r.2, (ttlSec c.exp j + 5) * 1000, .loaded⟩
     ∧ (qindex c s a j [] false).2.res = .val r.2 := by
+  unfold Cfg.slot at hmiss
   unfold qindex getCache setex
-  simp [failAt, hmiss, hr, upd, safeGapSec]
+  simp [failAt, hmiss, hr, upd, safeGapSec, Cfg.slot]
 
-/-! ## 5. Single loader per key -/
+/-! ## 5. Single loader per key, one result for all concurrent readers -/
 
 /-- **at most one database query per key is in flight**, for any number of concurrent readers and every
 schedule: in the interleaving model of `doTake`'s load inside `barrier.DoEx` (Flight.lean; createCall /
-makeCall tied by `tie_createCallShape` / `tie_makeCallShape`, the load being wholly inside the barrier by
-`tie_doTakeShape` / `tie_doTakeFacts`), two goroutines executing the database query are the same goroutine.
-(That followers receive the leader's value is C07's SingleFlight property; here it is checked at run time by the
-harness op `ctake`.) -/
-theorem single_loader_per_key (s : Flight.Cfg) (h : Flight.Reachable s) (t u : Nat)
+makeCall / DoEx tied by `tie_createCallShape` / `tie_makeCallShape` / `tie_doExShape` / `tie_doExFacts`, the load
+being wholly inside the barrier by `tie_doTakeShape` / `tie_doTakeFacts`), two goroutines executing the database
+query are the same goroutine. -/
+theorem single_loader_per_key {α : Type} (q : Nat → α) (s : Flight.Cfg α) (h : Flight.Reachable q s) (t u : Nat)
     (ht : s.pc t = 2) (hu : s.pc u = 2) : t = u := by
   have hi := Flight.inv_reachable h
   have h1 := hi t (Or.inr ht)
@@ -212,41 +230,168 @@ theorem single_loader_per_key (s : Flight.Cfg) (h : Flight.Reachable s) (t u : N
   rw [h1] at h2
   exact Option.some.inj h2
 
-/-- non-vacuity: a schedule in which goroutine 0 is querying while goroutine 1 waits on its call. -/
-example : ∃ s, Flight.Reachable s ∧ s.pc 0 = 2 ∧ s.pc 1 = 3 := by
-  refine ⟨_, .step 1 (.step 0 (.step 0 .init (s' := ⟨Flight.upd (fun _ => 0) 0 1, some 0, 0, fun _ => 0⟩) rfl)
-      (s' := ⟨Flight.upd (Flight.upd (fun _ => 0) 0 1) 0 2, some 0, 0, fun _ => 0⟩) rfl)
-      (s' := ⟨Flight.upd (Flight.upd (Flight.upd (fun _ => 0) 0 1) 0 2) 1 3, some 0, 0, Flight.upd (fun _ => 0) 1 0⟩) rfl, rfl, rfl⟩
+/-- **every concurrent reader receives that query's result**: a reader that has returned from `DoEx` — whether
+it ran the query itself or waited on another reader's call — holds exactly the answer `q id` of the one query
+run by the call `id` it created or joined, and that call is finished.  Any number of goroutines, every schedule,
+every answer of the database (row, not-found, error). -/
+theorem readers_receive_the_query_result {α : Type} (q : Nat → α) (s : Flight.Cfg α) (h : Flight.Reachable q s)
+    (t : Nat) (ht : s.pc t = 4) :
+    s.got t = some (q (s.joined t)) ∧ s.joined t < s.gen ∧ s.callVal (s.joined t) = some (q (s.joined t)) := by
+  have hi := Flight.inv2_reachable h
+  have := hi.ret t ht
+  exact ⟨this.2, this.1, hi.done _ this.1⟩
+
+/-- … hence all readers of one flight receive the same result. -/
+theorem concurrent_readers_share_result {α : Type} (q : Nat → α) (s : Flight.Cfg α) (h : Flight.Reachable q s)
+    (t u : Nat) (ht : s.pc t = 4) (hu : s.pc u = 4) (hj : s.joined t = s.joined u) : s.got t = s.got u := by
+  rw [(readers_receive_the_query_result q s h t ht).1, (readers_receive_the_query_result q s h u hu).1, hj]
+
+/-- one database query per flight: the number of queries started is the number of finished calls, plus one
+while the current call's leader is inside its query — so `n` readers that share flights cost one query per
+flight, never one per reader. -/
+theorem one_query_per_flight {α : Type} (q : Nat → α) (s : Flight.Cfg α) (h : Flight.Reachable q s) :
+    s.queries ≤ s.gen + 1 ∧ (s.flight = none → s.queries = s.gen) := by
+  have hi := Flight.inv2_reachable h
+  have hc := hi.count
+  constructor
+  · cases hf : s.flight with
+    | none => rw [hf] at hc; simp at hc; omega
+    | some l => rw [hf] at hc; simp at hc; split at hc <;> omega
+  · intro hf; rw [hf] at hc; simpa using hc
+
+/-- non-vacuity: a schedule in which goroutine 0 is querying while goroutine 1 waits on its call … -/
+example : ∃ s, Flight.Reachable (fun g => g + 100) s ∧ s.pc 0 = 2 ∧ s.pc 1 = 3 := by
+  refine ⟨_, .step 1 (.step 0 (.step 0 .init rfl) rfl) rfl, rfl, rfl⟩
+
+/-- … and its continuation: both have returned with the answer of call 0 (one query), a late third reader
+starts call 1 and gets that call's answer. -/
+example : ∃ s, Flight.Reachable (fun g => g + 100) s ∧ s.pc 0 = 4 ∧ s.pc 1 = 4 ∧ s.pc 2 = 4
+    ∧ s.got 0 = some 100 ∧ s.got 1 = some 100 ∧ s.got 2 = some 101 ∧ s.queries = 2 ∧ s.gen = 2 := by
+  refine ⟨_, .step 2 (.step 2 (.step 2 (.step 1 (.step 0 (.step 1 (.step 0 (.step 0 .init rfl) rfl) rfl) rfl) rfl) rfl) rfl) rfl,
+    rfl, rfl, rfl, rfl, rfl, rfl, rfl, rfl⟩
+
+/-! ## 6. Invalidation across nodes -/
+
+/-- **`Cache.DelCtx` covers every key it is given** — `cacheCluster.DelCtx` (grouping by node) over
+`cacheNode.DelCtx` (one DEL for the group, or — cluster-type Redis, more than one key — one DEL per key): after
+the call the key's slot on its node is empty, or a retry of a DEL of that key on that node is pending in the
+cleaner.  For every dispatch function (any number of nodes), both Redis types, every list of keys (duplicates
+included) and every outcome of every DEL; in particular a failed DEL of one key never keeps the keys after it
+from being deleted or scheduled. -/
+theorem del_covers_every_key (c : Cfg) (s : St) (ks : List CKey) (m : List (List Bool)) (k : CKey) (hk : k ∈ ks) :
+    (delOp c s ks m).1.cache (c.slot k) = none ∨ Pending (delOp c s ks m).1 (c.slot k) :=
+  delOp_covers c s ks m hk
+
+/-- … in whatever order the groups are processed (Go ranges over the `nodes` map in random order): for every
+list `ns` of nodes that contains the key's node. -/
+theorem del_covers_every_key_any_order (c : Cfg) (s : St) (ks : List CKey) (m : List (List Bool)) (ns : List Nat)
+    (k : CKey) (hk : k ∈ ks) (hn : c.place k ∈ ns) :
+    (clusterDel c ks m ns s).1.cache (c.slot k) = none ∨ Pending (clusterDel c ks m ns s).1 (c.slot k) :=
+  clusterDel_covers c ks m hk ns hn s
+
+/-- the same for `ExecCtx` whose database write succeeded. -/
+theorem exec_covers_every_key (c : Cfg) (s : St) (ks : List CKey) (w : Write) (m : List (List Bool)) (k : CKey)
+    (hk : k ∈ ks) :
+    (execOp c s ks w m false).1.cache (c.slot k) = none ∨ Pending (execOp c s ks w m false).1 (c.slot k) := by
+  unfold execOp
+  simp only [Bool.false_eq_true, if_false]
+  exact delOp_covers c _ ks m hk
+
+/-- without a failing DEL every named key is gone. -/
+theorem del_without_fault_removes_every_key (c : Cfg) (s : St) (ks : List CKey) (m : List (List Bool))
+    (hm : ∀ n i, failAt (m.getD n []) i = false) (k : CKey) (hk : k ∈ ks) :
+    (delOp c s ks m).1.cache (c.slot k) = none :=
+  delOp_nofault c s ks m hm hk
+
+/-- DelCtx and Exec never fail and never write: same database, entries only removed, tasks only appended. -/
+theorem del_only_removes (c : Cfg) (s : St) (ks : List CKey) (m : List (List Bool)) :
+    (delOp c s ks m).2.res = .ok ∧ DelStep s (delOp c s ks m).1 :=
+  ⟨rfl, delOp_step c s ks m⟩
+
+/-- the per-key loop issues exactly one DEL per key, in order, each with its own outcome. -/
+theorem delLoop_one_del_per_key (s : St) (n : Nat) (ks : List CKey) (m : List Bool) :
+    (delLoop s n ks m).2.map (fun r => (r.cmd, r.node, r.keys)) = ks.map fun k => (Cmd.del, n, [k]) :=
+  delLoop_cmds n ks s m
+
+/-- the `case 1` shortcut of `cacheCluster.DelCtx` (a single key goes straight to its node) is what the
+general path does for a single key. -/
+theorem delOp_single_key (c : Cfg) (s : St) (k : CKey) (m : List (List Bool)) :
+    delOp c s [k] m =
+      (delOne s (c.place k) [k] (failAt (m.getD (c.place k) []) 0),
+       { res := .ok, cmds := [⟨.del, c.place k, [k], failAt (m.getD (c.place k) []) 0⟩] }) := by
+  simp [delOp, nodesOf, clusterDel, nodeDel]
+
+/-- a retry that is due on a node that is up deletes its keys. -/
+theorem retry_deletes_when_node_up (s : St) (down : List Bool) (t : Task) (ht : t ∈ s.tasks) (hd : t.rem ≤ 1)
+    (hu : downOf down t.node = false) (k : CKey) (hk : k ∈ t.keys) :
+    (tick s down).1.cache (t.node, k) = none := by
+  have : (t.node, k) ∈ dueSlots (downOf down) s.tasks := by
+    unfold dueSlots
+    simp only [List.mem_flatMap, List.mem_filter, decide_eq_true_eq]
+    exact ⟨t, ⟨ht, hd, hu⟩, List.mem_map.mpr ⟨k, hk, rfl⟩⟩
+  simp [tick, delKeys, this]
+
+/-- a retry that is due on a node that is down is re-armed with the next delay of the schedule (same node,
+same keys). -/
+theorem retry_rearmed_when_node_down (s : St) (down : List Bool) (t : Task) (ht : t ∈ s.tasks) (hd : t.rem ≤ 1)
+    (hdn : downOf down t.node = true) (d : Nat) (hn : nextDelay t.delay = some d) :
+    ⟨t.node, t.keys, d, d⟩ ∈ (tick s down).1.tasks := by
+  simp only [tick]
+  refine List.mem_filterMap.mpr ⟨t, ht, ?_⟩
+  simp [tickTask, show ¬ t.rem > 1 by omega, hdn, hn]
+
+/-- non-vacuity, two nodes (`p1` on node 0, `x1` on node 1), cluster-type Redis: node 1 is down during the
+Exec — the DEL of `p1` on node 0 succeeds, the DEL of `x1` fails and is retried; while node 1 stays down the
+retry is re-armed, when it is up again the entry goes. -/
+example :
+    let c : Cfg := { exp := 20000, nf := 3000, cluster := true, place := fun k => match k with | .x _ => 1 | .p _ => 0 }
+    let ops : List Op := [.exec [.p 1, .x 1] (.put 1 10 1) [] false, .qindex 1 500 [] false,
+                          .exec [.p 1, .x 1] (.put 1 11 1) [[], [true]] false]
+    (run c St.init ops).cache (0, .p 1) = none
+    ∧ (run c St.init ops).cache (1, .x 1) = some ⟨.pk 1, 20000, .loaded⟩
+    ∧ (run c St.init ops).tasks = [⟨1, [.x 1], 1, 1⟩]
+    ∧ (run c St.init (ops ++ [.tick [false, true]])).tasks = [⟨1, [.x 1], 5, 5⟩]
+    ∧ (run c St.init (ops ++ [.tick [false, true]] ++ List.replicate 5 (.tick []))).cache (1, .x 1) = none := by
+  refine ⟨by decide, by decide, by decide, by decide, by decide⟩
+
+/-- non-vacuity, one cluster-type node, three keys, the DEL of the FIRST key fails: the other two are still
+deleted (per-key loop), only the first is retried. -/
+example :
+    let c : Cfg := { exp := 20000, nf := 3000, cluster := true }
+    let s := run c St.init [.set (.p 1) (.row 1 1 1) none 500 [], .set (.p 2) (.row 2 2 2) none 500 [],
+                            .set (.x 1) (.pk 1) none 500 [], .del [.p 1, .p 2, .x 1] [[true, false, false]]]
+    s.cache (0, .p 1) ≠ none ∧ s.cache (0, .p 2) = none ∧ s.cache (0, .x 1) = none ∧ s.tasks = [⟨0, [.p 1], 1, 1⟩] := by
+  refine ⟨by decide, by decide, by decide, by decide⟩
 
 /-! ## Non-vacuity -/
 
 /-- the proviso is satisfiable by a history with a write, reads, a failed DEL and cleaner ticks, and the
 carve-out of `coherent_reads_partial` really occurs there (second disjunct), then disappears after the retry. -/
 example :
-    let c : Cfg := ⟨20000, 3000⟩
+    let c : Cfg := { exp := 20000, nf := 3000 }
     let ops : List Op := [.exec [.p 1, .x 1] (.put 1 10 1) [] false, .take 1 500 [] false,
-                          .exec [.p 1] (.put 1 11 1) [true] false]
-    (run c St.init ops).cache (.p 1) = some ⟨.row 1 10 1, 20000, .stale⟩
-    ∧ (run c St.init ops).tasks = [⟨[.p 1], 1, 1⟩]
-    ∧ (run c St.init (ops ++ [.tick false])).cache (.p 1) = none
-    ∧ (takeP c (run c St.init (ops ++ [.tick false])) 1 0 [] false).2.res = .val (.row 1 11 1) := by
+                          .exec [.p 1] (.put 1 11 1) [[true]] false]
+    (run c St.init ops).cache (0, .p 1) = some ⟨.row 1 10 1, 20000, .stale⟩
+    ∧ (run c St.init ops).tasks = [⟨0, [.p 1], 1, 1⟩]
+    ∧ (run c St.init (ops ++ [.tick []])).cache (0, .p 1) = none
+    ∧ (takeP c (run c St.init (ops ++ [.tick []])) 1 0 [] false).2.res = .val (.row 1 11 1) := by
   refine ⟨by decide, by decide, by decide, by decide⟩
 
 /-- hypotheses of `served_from_cache` / `cache_failure_fails_fast` on a concrete state. -/
-example : (takeP ⟨20000, 3000⟩ (run ⟨20000, 3000⟩ St.init [.take 7 0 [] false]) 7 0 [] false).2
-    = { res := .notfound, q := 0, cmds := [(.get, false)] } := by decide
+example : (takeP { exp := 20000, nf := 3000 } (run { exp := 20000, nf := 3000 } St.init [.take 7 0 [] false]) 7 0 [] false).2
+    = { res := .notfound, q := 0, cmds := [⟨.get, 0, [.p 7], false⟩] } := by decide
 
-example : (run ⟨20000, 3000⟩ St.init [.take 7 0 [] false]).cache (.p 7) = some ⟨.ph, 4000, .loaded⟩ := by decide
+example : (run { exp := 20000, nf := 3000 } St.init [.take 7 0 [] false]).cache (0, .p 7) = some ⟨.ph, 4000, .loaded⟩ := by decide
 
 example : ttlSec 20000 0 = 21 ∧ ttlSec 20000 1000 = 19 ∧ ttlSec 20000 500 = 20 ∧ ttlSec 1 1000 = 1
     ∧ Spec.ttlLo 20000 = 19 ∧ Spec.ttlHi 20000 = 21 := by decide
 
 /-- five failed retries: the cleaner gives up, the stale entry stays (second branch of `Prov`). -/
 example :
-    let c : Cfg := ⟨20000, 3000⟩
+    let c : Cfg := { exp := 20000, nf := 3000 }
     let s := run c St.init ([.exec [.p 1] (.put 1 10 1) [] false, .take 1 500 [] false,
-                             .exec [.p 1] (.rm 1) [true] false, .tick true]
-                            ++ List.replicate 5 (.tick true))
-    s.tasks = [⟨[.p 1], 60, 60⟩] ∧ s.gaveUp = 0 := by decide
+                             .exec [.p 1] (.rm 1) [[true]] false, .tick [true]]
+                            ++ List.replicate 5 (.tick [true]))
+    s.tasks = [⟨0, [.p 1], 60, 60⟩] ∧ s.gaveUp = 0 := by decide
 
 end GoZero.C06
